@@ -302,6 +302,20 @@ func c03Tasks(tier string) []Task {
 	for d := 1; d <= bd; d++ {
 		ml = append(ml, seqLevel{Name: fmt.Sprintf("mmap-block-len%d", d), Cfgs: []Cfg{mblk}, Keys: keysAB, Alpha: c03BlockAlphabet, Depth: d, Dev: 3, Run: runBlock, MaxViols: 1})
 	}
+	// data file ids with a gap (a merge into fewer files, adopted): the newest file is not file number len(files)-1
+	gapAlpha := func(c Cfg) []Op {
+		return []Op{{K: "gap"}, {K: "put", Key: "a", VC: "S"}, {K: "put", Key: "b", VC: "L"}, {K: "del", Key: "a"},
+			{K: "batch", Sub: []Op{{K: "put", Key: "a", VC: "S"}, {K: "del", Key: "b"}}}}
+	}
+	gm := defaultCfg
+	gm.IO = 1
+	runGap := func(cfg Cfg, keys []string, ops []Op, res *TaskResult) *Violation {
+		if ops[len(ops)-1].K == "gap" {
+			return nil // the crash-explored (last) operation must be ONE mutation; "gap" is a macro of six
+		}
+		return runTwice(cfg, keys, ops, res)
+	}
+	ml = append(ml, seqLevel{Name: "id-gap-len3", Cfgs: []Cfg{defaultCfg, gm}, Keys: keysAB, Alpha: gapAlpha, Depth: 3, Dev: 3, Run: runGap, MaxViols: 1})
 	return append(tasks, seqTasks("C03", ml)...)
 }
 
